@@ -32,8 +32,8 @@ theorem CInv_of_view (s s' : St) (h : cview s' = cview s) (hi : CInv s) : CInv s
   obtain ⟨a1, a2, a3⟩ := hi
   constructor <;> simp only [h1, h2, h3] <;> assumption
 
-theorem CInv_init : CInv init := by
-  constructor <;> simp [init, hasSeq, inTab]
+theorem CInv_init (f p : Nat → Nat) : CInv (initSz f p) := by
+  constructor <;> simp [initSz, hasSeq, inTab]
 
 set_option maxHeartbeats 4000000 in
 theorem CInv_step (s s' : St) (a : Act) (hi : CInv s) (hs : step s a = some s') : CInv s' := by
@@ -51,7 +51,7 @@ theorem CInv_step (s s' : St) (a : Act) (hi : CInv s) (hs : step s a = some s') 
 
 theorem CInv_reachable (s : St) (hr : Reachable s) : CInv s := by
   induction hr with
-  | init => exact CInv_init
+  | init f p => exact CInv_init f p
   | step s s' a _ hs ih => exact CInv_step s s' a ih hs
 
 /-! ### a caller at its deferred `RemoveCall` -/
